@@ -401,7 +401,10 @@ func commitWorker(
 		// See if we can recover a child artifact from an existing directory
 		// manifest. This enables skipping up-to-date artifacts.
 		childArt, ok := dirMan.Contents[path]
-		if !ok {
+		// Only reuse the old child artifact if the workspace entry still has
+		// the same type; a file that became a directory (or vice versa) must
+		// be committed from scratch.
+		if !ok || childArt.IsDir != entry.IsDir() {
 			childArt = &artifact.Artifact{
 				Path:  path,
 				IsDir: entry.IsDir(),
